@@ -239,6 +239,50 @@ def Table.unflushed (t : Table) : List Nat :=
   | none => []
   | some s => s.memParts.flatMap (·.batches)
 
+/-! ### trace tables: core parts + secondary index (`banyand/trace/snapshot.go`, `banyand/internal/sidx`)
+
+Every flush/merge publishes the core snapshot and the secondary-index (sidx) snapshot in one transaction, and an
+index part carries the id of the core part it belongs to; so "the index snapshot" of a published state is the id
+list of its file parts. When a copy is opened, `loadSidxMap(availablePartIDs)` deletes every index part whose id the
+core manifest does not name. -/
+
+structure TraceDst where
+  core : Dst
+  index : List Nat            -- ids of the index part directories in the copy
+  deriving Repr, DecidableEq, Inhabited
+
+/-- index parts that survive opening the copy. -/
+def TraceDst.openIndex (d : TraceDst) : List Nat := d.index.filter fun id => (d.core.manifest.getD []).contains id
+
+def Table.indexIds (t : Table) : List Nat :=
+  match t.cur with
+  | none => []
+  | some s => s.diskParts.map (·.id)
+
+/-- the repaired procedure (fixes/F19): the core snapshot is pinned and the index is hard-linked inside one
+    publication critical section, so no publication can fall between the two pins; environment operations that
+    arrive meanwhile (`early`) run when the section ends, before the first core link. -/
+def takeTraceSnapshot (t : Table) (early : List MOp) (hooks : Nat → List MOp) (failAt : Option Nat) :
+    Table × Status × Option TraceDst :=
+  let idx := t.indexIds
+  let (t', r, _) := takeFileSnapshot Lens.id (fun p u => u.run ((if p = 0 then early else []) ++ hooks p)) failAt none 0 t
+  (t', r.status, r.dst.map fun d => ⟨d, idx⟩)
+
+/-- the procedure as written at the pinned commit: the index pins *its own* current snapshot after the
+    environment had a chance to publish (`early`, at `MkdirPanicIfExist(<dst>/sidx/<name>)`). -/
+def takeTraceSnapshot_legacy (t : Table) (early : List MOp) (hooks : Nat → List MOp) (failAt : Option Nat) :
+    Table × Status × Option TraceDst :=
+  match t.cur with
+  | none => (t, .noSnapshot, none)
+  | some s =>
+    let t1 := (t.pin s).run early                     -- core pinned; the environment publishes; then the index pins
+    let idx := t1.indexIds
+    if s.diskParts.isEmpty then (t1.unpin s, .noDisk, none) else
+    match linkLoop Lens.id (fun p u => u.run (hooks p)) failAt s.diskParts 0 t1 [] with
+    | (t2, _, true, _) => (t2.unpin s, .err, none)
+    | (t2, parts, false, p) =>
+      ((t2.run (hooks p)).unpin s, .ok, some ⟨⟨parts, some (manifestOf s)⟩, idx⟩)
+
 /-! ### segments and the database (`banyand/internal/storage`) -/
 
 /-- `tsTable.Close()`: the current snapshot is released; in-memory parts are gone. -/
